@@ -153,6 +153,12 @@ pub enum Op {
     IterMut(usize, u8),
     /// by-value iteration abandoned after `take` items (usize::MAX = consume fully)
     IntoIter(usize, usize),
+    /// by-value iterator: `nth(k)`, then abandoned
+    IntoIterNth(usize, usize),
+    /// by-value iterator: `skip(k)` then take everything
+    IntoIterSkip(usize, usize),
+    /// by-value iterator: `step_by(k)` (k >= 1) to the end
+    IntoIterStep(usize, usize),
     Drop(usize),
 }
 
@@ -196,6 +202,9 @@ impl Op {
             Op::Iter(s) => json!(["iter", s]),
             Op::IterMut(s, a) => json!(["iter_mut", s, a]),
             Op::IntoIter(s, t) => json!(["into_iter", s, if *t == usize::MAX { -1 } else { *t as i64 }]),
+            Op::IntoIterNth(s, k) => json!(["into_iter_nth", s, k]),
+            Op::IntoIterSkip(s, k) => json!(["into_iter_skip", s, k]),
+            Op::IntoIterStep(s, k) => json!(["into_iter_step_by", s, k]),
             Op::Drop(s) => json!(["drop", s]),
         }
     }
@@ -231,6 +240,9 @@ impl Op {
                 let t = a.get(2)?.as_i64()?;
                 Op::IntoIter(s, if t < 0 { usize::MAX } else { t as usize })
             }
+            "into_iter_nth" => Op::IntoIterNth(s, u(2)?),
+            "into_iter_skip" => Op::IntoIterSkip(s, u(2)?),
+            "into_iter_step_by" => Op::IntoIterStep(s, u(2)?.max(1)),
             "drop" => Op::Drop(s),
             _ => return None,
         })
@@ -492,6 +504,40 @@ fn run<T: Elem, const N: usize>(c: &SvecCheck, v: &mut Verdict) {
                     removed = true;
                 }
             }
+            Op::IntoIterNth(s, k) => {
+                if let (Some(a), Some(m)) = (sv[*s].take(), model[*s].take()) {
+                    let mut it = a.into_iter();
+                    let got = it.nth(*k).map(|t| t.val());
+                    let next = it.next().map(|t| t.val());
+                    drop(it);
+                    let want = m.get(*k).copied();
+                    let want_next = m.get(*k + 1).copied();
+                    if got != want || next != want_next {
+                        bad!(i, "wrong-into-iter", "op {}: into_iter().nth({}) then next() give {:?}, {:?} but should give {:?}, {:?}", i, k, got, next, want, want_next);
+                    }
+                    removed = true;
+                }
+            }
+            Op::IntoIterSkip(s, k) => {
+                if let (Some(a), Some(m)) = (sv[*s].take(), model[*s].take()) {
+                    let got: Vec<u8> = a.into_iter().skip(*k).map(|t| t.val()).collect();
+                    let want: Vec<u8> = m.into_iter().skip(*k).collect();
+                    if got != want {
+                        bad!(i, "wrong-into-iter", "op {}: into_iter().skip({}) yields {:?} but should yield {:?}", i, k, got, want);
+                    }
+                    removed = true;
+                }
+            }
+            Op::IntoIterStep(s, k) => {
+                if let (Some(a), Some(m)) = (sv[*s].take(), model[*s].take()) {
+                    let got: Vec<u8> = a.into_iter().step_by((*k).max(1)).map(|t| t.val()).collect();
+                    let want: Vec<u8> = m.into_iter().step_by((*k).max(1)).collect();
+                    if got != want {
+                        bad!(i, "wrong-into-iter", "op {}: into_iter().step_by({}) yields {:?} but should yield {:?}", i, k, got, want);
+                    }
+                    removed = true;
+                }
+            }
             Op::Drop(s) => {
                 sv[*s] = None;
                 model[*s] = None;
@@ -607,7 +653,12 @@ pub fn generate(rng: &mut Rng, prop: &str) -> SvecCheck {
                     Op::IterMut(s, 1)
                 }
             }
-            28 => Op::IntoIter(s, if rng.chance(1, 4) { usize::MAX } else { rng.urange(0, 4) }),
+            28 => match rng.below(6) {
+                0 => Op::IntoIterNth(s, rng.urange(0, 3)),
+                1 => Op::IntoIterSkip(s, rng.urange(0, 3)),
+                2 => Op::IntoIterStep(s, rng.urange(1, 3)),
+                _ => Op::IntoIter(s, if rng.chance(1, 4) { usize::MAX } else { rng.urange(0, 4) }),
+            },
             _ => Op::Drop(s),
         });
     }
